@@ -225,6 +225,34 @@ func buildConstTables(pkg *ssa.Package) map[*ssa.Global]*constTable {
 	}
 	for g := range cands {
 		if at, isArr := g.Type().(*types.Pointer).Elem().Underlying().(*types.Array); isArr {
+			// a table computed by a function of its own: var t = func() [N]T { ... }()
+			if nInitStores[g] == 1 {
+				for _, ev := range best.events {
+					st, isSt := ev.(*ssa.Store)
+					if !isSt || st.Addr != ssa.Value(g) {
+						continue
+					}
+					call, isCall := st.Val.(*ssa.Call)
+					if !isCall {
+						continue
+					}
+					builder := call.Call.StaticCallee()
+					if builder == nil {
+						if mc, isMC := call.Call.Value.(*ssa.MakeClosure); isMC {
+							builder, _ = mc.Fn.(*ssa.Function)
+						}
+					}
+					if elems, _, elemT, okT := evalTableBuilder(builder); okT {
+						t := &constTable{global: g, stores: map[string]ssa.Value{}, valType: at.Elem(), isArray: true}
+						for k, v := range elems {
+							t.keys = append(t.keys, constant.MakeInt64(k))
+							t.vals = append(t.vals, ssa.NewConst(v, elemT))
+						}
+						out[g] = t
+					}
+				}
+				continue
+			}
 			// element stores of the initialiser; every other index holds the zero value
 			t := &constTable{global: g, stores: best.stores, valType: at.Elem(), isArray: true}
 			ok := nInitStores[g] == 0
